@@ -75,6 +75,9 @@ func getOffset(k []byte) int64 {
 // allow reads to be performed correctly.
 func (t *TFile) trackWrite(offset int64, length int64) {
 
+	if length <= 0 {
+		return
+	}
 	start, end := getFileRange(offset, length)
 
 	// Lock to protect radix tree, reads can continue.
@@ -96,40 +99,22 @@ func (t *TFile) trackWrite(offset int64, length int64) {
 
 	fn := func(k []byte, v interface{}) bool {
 		isStart := v.(bool)
-		isEnd := !isStart
 		key := getOffset(k)
 
-		deleteKey := func() {
-			if key <= end {
-				txn.Delete(k)
-			}
-		}
 		switch {
-		case isStart && (key == start):
-			insertStart = false
+		case key < start:
+			// The last key before the write tells if start falls in (or right after) a tracked range,
+			// in which case that range's start covers this write.
+			insertStart = !isStart
 			return !terminate
-		case isStart && (key < start):
-			// Only interim keys need deleting
-			return !terminate
-		case isStart && (key > start):
-			deleteKey()
-			return !terminate
-		case isEnd && (key < start):
-			// Previous end hit and can be ignored, process next key
-			return !terminate
-		case isEnd && (key > start):
-			// There is an end that is after start and no other key in the range.
-			// Skip inserting start, previous start will cover the range.
-			insertStart = false
-			// This key might need deleting and process other keys
-			if key >= end {
-				insertEnd = false
-				return terminate
-			}
-			deleteKey()
+		case key <= end:
+			// Keys inside or touching the written range are superseded by it
+			txn.Delete(k)
 			return !terminate
 		default:
-			return !terminate
+			// First key past the write: an end means the write runs into a range tracked up to there.
+			insertEnd = isStart
+			return terminate
 		}
 	}
 
